@@ -208,6 +208,12 @@ def sibParent (pos height : Nat) : Nat × Nat × Bool :=
   if nextHeight > height then (pos - so, pos + 1, true)
   else (pos + so, pos + parentOffset height, false)
 
+/-- fuel of the two per-peak queue loops (`gen_proof_for_peak`, `calculate_peak_root`; the Rust
+loops have none). Every iteration replaces the front entry by its parent, one level higher, and a
+tree below `peakPos` has fewer than `peakPos + 2` levels, so `len` entries need fewer than
+`(peakPos + 2) * len` iterations; `Lemmas/MMRProofLoop.lean` proves this is never exhausted. -/
+def peakFuel (peakPos len : Nat) : Nat := (peakPos + 2) * (len + 1)
+
 /-- the queue loop of `gen_proof_for_peak` -/
 def genPeakLoop {α : Type} (st : Store α) (peakPos : Nat) :
     Nat → List (Nat × Nat) → List α → Option (List α)
@@ -242,7 +248,7 @@ def genProofForPeak {α : Type} (st : Store α) (proof : List α) (posList : Lis
     match st peakPos with
     | some e => some (proof ++ [e])
     | none => none
-  else genPeakLoop st peakPos (2 * (peakPos + 2) + posList.length) (posList.map fun p => (p, 0)) proof
+  else genPeakLoop st peakPos (peakFuel peakPos posList.length) (posList.map fun p => (p, 0)) proof
 
 /-- the `for peak_pos in peaks` loop of `gen_proof`: `(remaining positions, proof, bagging_track)` -/
 def genProofPeaks {α : Type} (st : Store α) :
@@ -339,11 +345,11 @@ def calcPeaksLoop {α : Type} (merge : α → α → α) :
     | [(p, item)] =>
       if p = peakPos then calcPeaksLoop merge peaks rest proof (acc ++ [item])
       else
-        match calcPeakLoop merge peakPos (2 * (peakPos + 2) + 1) [(p, item, 0)] proof with
+        match calcPeakLoop merge peakPos (peakFuel peakPos 1) [(p, item, 0)] proof with
         | none => none
         | some (r, proof') => calcPeaksLoop merge peaks rest proof' (acc ++ [r])
     | _ =>
-      match calcPeakLoop merge peakPos (2 * (peakPos + 2) + mine.length)
+      match calcPeakLoop merge peakPos (peakFuel peakPos mine.length)
               (mine.map fun l => (l.1, l.2, 0)) proof with
       | none => none
       | some (r, proof') => calcPeaksLoop merge peaks rest proof' (acc ++ [r])
